@@ -1,0 +1,30 @@
+//! Verification hooks. Everything in this module exists only when the crate is built with the
+//! `verif_hooks` feature; with the feature off no code outside this file changes.
+
+use std::sync::Mutex;
+
+/// One step of the claim / wait / transfer protocol, as recorded by the implementation itself.
+#[derive(Clone, Debug, PartialEq, Eq)]
+pub enum TraceEvent {
+    /// free-form record: (site, a, b, c)
+    Raw(&'static str, u64, u64, u64),
+}
+
+static SINK: Mutex<Option<Vec<TraceEvent>>> = Mutex::new(None);
+
+/// Start recording (clears anything recorded before).
+pub fn start() {
+    *SINK.lock().unwrap_or_else(|e| e.into_inner()) = Some(Vec::new());
+}
+
+/// Stop recording and return what was recorded.
+pub fn drain() -> Vec<TraceEvent> {
+    SINK.lock().unwrap_or_else(|e| e.into_inner()).take().unwrap_or_default()
+}
+
+/// Record one event (no-op unless `start` was called).
+pub fn trace(ev: TraceEvent) {
+    if let Some(v) = SINK.lock().unwrap_or_else(|e| e.into_inner()).as_mut() {
+        v.push(ev);
+    }
+}
